@@ -340,7 +340,7 @@ def run(ctx):
     want_d = 'getattr(%s.parsing_state_event_handler(), self.walker_event_name)(**self.walker_event_kwargs)' % wp_[2]
     got_txt = []
     for c in rcs:
-        e_ = symex.expand(c.sub, c.env, depth=6)
+        e_ = symex.inline_value_helpers(symex.expand(c.sub, c.env, depth=6), dm.methods('ParsingStateDeltaWalkerEvent'))
         g_ = unparse(e_)
         if isinstance(e_, ast.Call) and call_name(e_) == 'get_updated_parsing_state' and call_recv(e_) is not None \
                 and len(e_.args) == 2 and unparse(call_recv(e_)) == want_d and unparse(e_.args[0]) == wp_[1] \
